@@ -276,6 +276,43 @@ def run(repo, rep, tier):
            "" if okd else f"Document({', '.join(big)}) is larger than a small grid and cells are only ever added: a 1x1 CSV comes back as {big[0] if big else '?'} with empty cells", key="C20.R4@save:no-padding")
     ok = "doc.save(self.output_filename)" in s
     rep.ob("C20.R4", sv, "document saved to the requested output", ok, "", key="C20.R4@save:output")
+    # ... and Document(num_rows=r, num_cols=c) makes a table of exactly r x c (the 1 x 1 start grown by r - 1 and c - 1)
+    from ..linear import Lin as _Lin, lin as _lin
+    di = repo.func("document.py", "Document.__init__")
+    grown = {}
+    for c in body_walk(di):
+        if isinstance(c, ast.Call) and isinstance(c.func, ast.Attribute) and c.func.attr in ("add_row", "add_column") and len(c.args) == 1 and not c.keywords:
+            grown.setdefault(c.func.attr, []).append(c)
+    why_sz = ""
+    for meth_, prm_ in (("add_row", "num_rows"), ("add_column", "num_cols")):
+        calls_ = grown.get(meth_, [])
+        if len(calls_) != 1:
+            why_sz = why_sz or f"{len(calls_)} {meth_} calls in Document.__init__"
+            continue
+        l_ = _lin(calls_[0].args[0], repo.consts)
+        if l_ is None or not (l_ - _Lin(-1, {prm_: 1})).is_const() or (l_ - _Lin(-1, {prm_: 1})).c != 0:
+            why_sz = why_sz or f"the new table is grown by `{U(calls_[0].args[0])[:60]}` instead of {prm_} - 1: a grid of one row or one column is exported with an extra empty row or column"
+    rep.ob("C20.R4", di, "Document(num_rows, num_cols) creates a table of exactly that size", not why_sz, why_sz, key="C20.R4@document:size-honoured")
+    # an option's default is the same whether the converter is driven from the command line or constructed directly
+    conv = repo.cls("_csv2numbers.py", "Converter")
+    field_defaults = {n.target.id: try_const(n.value, default=Ellipsis) for n in conv.body if isinstance(n, ast.AnnAssign) and isinstance(n.target, ast.Name) and n.value is not None}
+    clp = repo.func("_csv2numbers.py", "command_line_parser")
+    differ = []
+    n_opts = 0
+    for c in body_walk(clp):
+        if isinstance(c, ast.Call) and isinstance(c.func, ast.Attribute) and c.func.attr == "add_argument" and c.args:
+            names_ = [try_const(a, default=None) for a in c.args]
+            long_ = next((x for x in names_ if isinstance(x, str) and x.startswith("--")), None)
+            dflt = next((kw.value for kw in c.keywords if kw.arg == "default"), None)
+            dest = next((try_const(kw.value, default=None) for kw in c.keywords if kw.arg == "dest"), None) or (long_[2:].replace("-", "_") if long_ else None)
+            if dest in field_defaults and dflt is not None and field_defaults[dest] is not Ellipsis:
+                n_opts += 1
+                dv = try_const(dflt, default=Ellipsis)
+                if dv is not Ellipsis and dv != field_defaults[dest]:
+                    differ.append((c, f"--{dest.replace('_', '-')}: command line default {dv!r}, Converter default {field_defaults[dest]!r}"))
+    rep.ob("C20.R4", differ[0][0] if differ else clp, f"command-line defaults equal the Converter's own defaults ({n_opts} options with both)", not differ,
+           "; ".join(d for _c, d in differ) + (": the same file converts differently from the command line (a leading U+FEFF of the first cell is dropped by utf-8-sig)" if differ else ""),
+           key="C20.R4@cli:defaults-agree")
     # --reverse: the list of data rows is reversed exactly when the option is set (any of the usual spellings)
     def guards_of(n):
         return [U(p.test).replace(" ", "") for p in _anc(n) if isinstance(p, ast.If) and any(n is x for b in p.body for x in ast.walk(b))]
@@ -341,6 +378,8 @@ def _anc(n):
 
 
 VARIANTS = [
+    M("cli-encoding-default-differs", "_csv2numbers.py", '        default="utf-8",', '        default="utf-8-sig",', "C20.R4"),
+    M("document-size-padded-for-headers", "document.py", "            table.add_row(num_rows - 1)", "            table.add_row(max(num_rows, num_header_rows + 1) - 1)", "C20.R4"),
     M("revert-fix-two-by-two-start", "_csv2numbers.py", "        doc = Document(num_rows=num_rows, num_cols=num_cols)", "        doc = Document(num_rows=2, num_cols=2)", "C20.R4"),
     M("revert-fix-csv-newline", "_csv2numbers.py", 'with open(self.input_filename, encoding=self.encoding, newline="") as csvfile:', "with open(self.input_filename, encoding=self.encoding) as csvfile:", "C20.R2"),
     M("csv-opened-in-default-encoding", "_csv2numbers.py", 'with open(self.input_filename, encoding=self.encoding, newline="") as csvfile:', 'with open(self.input_filename, newline="") as csvfile:', "C20.R2"),
